@@ -26,7 +26,8 @@ META = {
                   "under `go build -race` (thorough tier), a race report being a violation.",
     "level_note": "Trusted: Lean kernel; model of Foreach (channel send/receive as atomic acquire/release of a permit); hook H1 "
                   "(concurrent/verif_on.go); Go's race detector; python generator. The sampled schedules are a tiny part of all "
-                  "interleavings; data races that the detector does not observe in the sampled runs are not excluded.",
+                  "interleavings; data races that the detector does not observe in the sampled runs are not excluded. Known findings: the race "
+                  "detector reports unsynchronised accesses to types.Method.Flags and types.Method.Body between method-body goroutines.",
     "design_ref": "DESIGN.md §7 C11, §4.4 H1",
 }
 
